@@ -186,6 +186,13 @@ func (_this *ptrBuilder) BuildBeginNodeContents(ctx *Context) {
 }
 
 func (_this *ptrBuilder) NotifyChildContainerFinished(ctx *Context, value reflect.Value) {
+	if !value.CanAddr() {
+		// e.g. a map made by reflect.MakeMap
+		ptr := reflect.New(value.Type())
+		ptr.Elem().Set(value)
+		ctx.UnstackBuilderAndNotifyChildFinished(ptr)
+		return
+	}
 	ctx.UnstackBuilderAndNotifyChildFinished(value.Addr())
 }
 
